@@ -49,10 +49,10 @@ theorem map_free (g : G) (id : Nat) (hfree : g.client id = none) (c c' : Client)
 theorem notify_pos (g : G) (w : WEvent) (h : w.rev ≠ 0) : g.notify w = { g with slots := g.slots ++ [w] } := by
   simp [G.notify, h]
 
-/-- A guarded update whose expected revision lies beyond the revision it is dealt: rejected in its first
+/-- A guarded update whose expected revision is not below the revision it is dealt (equal: it names a version nobody has written yet and would overwrite itself): rejected in its first
 step, the revision reported (invalid) to the sequencer. -/
 theorem run_update_drift (g : G) (id : Nat) (k v : Bytes) (exp : Nat)
-    (hfree : g.client id = none) (hexp : g.dealt + 1 < exp) :
+    (hfree : g.client id = none) (hexp : g.dealt + 1 ≤ exp) :
     run g [.begin id (.update k v exp), .step id .none] =
       { g with dealt := g.dealt + 1, slots := g.slots ++ [mkW (g.dealt + 1) exp false .put k v],
                done := g.done ++ [{ id := id, kind := .update k v exp, res := .error .drift, rev := g.dealt + 1,
@@ -67,7 +67,7 @@ theorem run_update_drift (g : G) (id : Nat) (k v : Bytes) (exp : Nat)
 
 /-- Same for a guarded delete of an existing key (read, then deal, then reject). -/
 theorem run_delete_drift (g : G) (id : Nat) (k : Bytes) (exp : Nat)
-    (hfree : g.client id = none) (hexp : g.dealt + 1 < exp) (v : Bytes) (m : Nat)
+    (hfree : g.client id = none) (hexp : g.dealt + 1 ≤ exp) (v : Bytes) (m : Nat)
     (hfound : bget g.cfg g.store k 0 = .found v m) :
     run g [.begin id (.delete k exp), .step id .none, .step id .none] =
       { g with dealt := g.dealt + 1, slots := g.slots ++ [mkW (g.dealt + 1) m false .delete k v],
@@ -81,7 +81,7 @@ theorem run_delete_drift (g : G) (id : Nat) (k : Bytes) (exp : Nat)
   rw [map_free g id hfree _ _ rfl]
   rw [act_step_of _ id _ _ (client_snoc_free g
     { id := id, kind := .delete k exp, pc := .deleteDeal (some (v, m)), beginDealt := g.dealt } hfree)]
-  have e0 : (decide (exp > 0) && decide (g.dealt + 1 < exp)) = true := by simp; omega
+  have e0 : (decide (exp > 0) && decide (g.dealt + 1 ≤ exp)) = true := by simp; omega
   simp only [stepClient, e0, if_true]
   rw [notify_pos _ _ (by simp [mkW])]
   simp only [G.finish]
